@@ -366,6 +366,77 @@ fn first_cast_literal(b: &syn::Block) -> Option<(i128, usize, Value, bool)> {
     v.addr.map(|a| (a, v.derefs, v.cast, v.as_mut))
 }
 
+/// the single tail expression of a block, looking through one `unsafe { .. }`
+fn sole_expr(b: &syn::Block) -> Option<&Expr> {
+    if b.stmts.len() != 1 {
+        return None;
+    }
+    let Stmt::Expr(e, None) = &b.stmts[0] else { return None };
+    match strip(e) {
+        Expr::Unsafe(u) => sole_expr(&u.block),
+        other => Some(other),
+    }
+}
+
+/// the statements of a block, looking through one enclosing `unsafe { .. }`
+fn inner_stmts(b: &syn::Block) -> &Vec<Stmt> {
+    if b.stmts.len() == 1 {
+        if let Stmt::Expr(e, None) = &b.stmts[0] {
+            if let Expr::Unsafe(u) = strip(e) {
+                return &u.block.stmts;
+            }
+        }
+    }
+    &b.stmts
+}
+
+fn deref_of(e: &Expr) -> Option<&Expr> {
+    match strip(e) {
+        Expr::Unary(u) if matches!(u.op, syn::UnOp::Deref(_)) => Some(strip(&u.expr)),
+        _ => None,
+    }
+}
+
+fn lit_cast(e: &Expr) -> Option<(i128, &Type)> {
+    match strip(e) {
+        Expr::Cast(c) => lit_int(&c.expr).map(|n| (n, &*c.ty)),
+        _ => None,
+    }
+}
+
+/// exactly the emitted shape of an extern-value accessor: `&mut *(LIT as *mut T)`
+fn accessor_template(b: &syn::Block) -> bool {
+    let Some(Expr::Reference(r)) = sole_expr(b) else { return false };
+    if r.mutability.is_none() {
+        return false;
+    }
+    let Some(inner) = deref_of(&r.expr) else { return false };
+    matches!(lit_cast(inner), Some((_, Type::Ptr(p))) if p.mutability.is_some())
+}
+
+/// `let ptr: *mut Self = *(LIT as *mut *mut Self); ptr.as_mut()`
+fn struct_singleton_template(b: &syn::Block) -> bool {
+    let st = inner_stmts(b);
+    if st.len() != 2 {
+        return false;
+    }
+    let Stmt::Local(l) = &st[0] else { return false };
+    let Some(init) = &l.init else { return false };
+    let Some(inner) = deref_of(&init.expr) else { return false };
+    if lit_cast(inner).is_none() {
+        return false;
+    }
+    let Stmt::Expr(Expr::MethodCall(m), None) = &st[1] else { return false };
+    m.method == "as_mut" && m.args.is_empty() && matches!(strip(&m.receiver), Expr::Path(_))
+}
+
+/// `*(LIT as *const Self)`
+fn enum_singleton_template(b: &syn::Block) -> bool {
+    let Some(e) = sole_expr(b) else { return false };
+    let Some(inner) = deref_of(e) else { return false };
+    lit_cast(inner).is_some()
+}
+
 pub fn file(src: &str) -> Result<Value, String> {
     let f = syn::parse_file(src).map_err(|e| format!("syn: {e}"))?;
     let mut top: Vec<Value> = vec![];
@@ -436,8 +507,10 @@ pub fn file(src: &str) -> Result<Value, String> {
                                 Expr::Cast(c) => lit_int(&c.expr),
                                 other => lit_int(other),
                             });
+                            // a discriminant that is written but not as a literal is not read off the text
+                            let unread = v.discriminant.is_some() && val.is_none();
                             json!({"name": v.ident.to_string(),
-                                   "val": val.map(int_json).unwrap_or(json!(NONE)),
+                                   "val": if unread { json!("unknown") } else { val.map(int_json).unwrap_or(json!(NONE)) },
                                    "dflt": v.attrs.iter().any(|a| a.path().is_ident("default")),
                                    "doc": docs(&v.attrs)})
                         })
@@ -476,6 +549,9 @@ pub fn file(src: &str) -> Result<Value, String> {
                                           "addr": lit.as_ref().map(|l| int_json(l.0)).unwrap_or(json!(NONE)),
                                           "derefs": lit.as_ref().map(|l| l.1).unwrap_or(0),
                                           "cast": lit.as_ref().map(|l| l.2.clone()).unwrap_or(json!({"k": "none"})),
+                                          // body parameters are judged only for the emitted template; any other
+                                          // shape is decided by executing the accessor, never by reading it
+                                          "shape": if accessor_template(&func.block) { "template" } else { "unknown" },
                                           "unsafe": func.sig.unsafety.is_some()}));
                         top.push(json!({"kind": "accessor", "name": ev, "idx": idx}));
                         continue;
@@ -555,6 +631,11 @@ pub fn file(src: &str) -> Result<Value, String> {
                     e["singleton_derefs"] = json!(lit.as_ref().map(|l| l.1).unwrap_or(0));
                     e["singleton_cast"] = lit.as_ref().map(|l| l.2.clone()).unwrap_or(json!({"k": "none"}));
                     e["singleton_as_mut"] = json!(lit.as_ref().map(|l| l.3).unwrap_or(false));
+                    e["singleton_shape"] = json!(if struct_singleton_template(&fns[0].block) || enum_singleton_template(&fns[0].block) {
+                        "template"
+                    } else {
+                        "unknown"
+                    });
                     e["singleton_vis"] = json!(vis(&fns[0].vis));
                     e["singleton_kind"] = json!(ret);
                     top.push(json!({"kind": "singleton", "name": self_ty, "idx": idx}));
